@@ -291,8 +291,11 @@ def run_case(ctx, name, params):
                 label = "nlopt-%d" % alg.options["algorithm"]
             alg.run()
         except Exception as e:
-            ctx.violation("%s/exception" % name, "%s run raised %r" % (name, e), {"method": params})
-            return
+            if type(e).__module__.split(".")[0] == "nlopt":
+                ctx.count("runs_aborted_by_external_optimiser")     # RoundoffLimited etc.: the queries made so far are still judged
+            else:
+                ctx.violation("%s/exception" % name, "%s run raised %r" % (name, e), {"method": params})
+                return
         finally:
             pt.restore()
         ctx.count(name + "_runs")
